@@ -1,7 +1,7 @@
 // ---- bytes crate: BytesMut / Bytes seen through their readable contents (view = Seq<u8>) ----
 // Capacity is not part of the view: reserve() is observably a no-op (A-bytes-reserve). The ghost
-// `reserve_bound` lets a unit state "never reserve more than the configured limit" as a precondition.
-pub struct BytesMut { pub v: Vec<u8>, pub reserve_bound: Ghost<nat> }
+// `reserve_bound` lets a unit state "never reserve more than the configured limit" as a precondition (negative = no budget imposed).
+pub struct BytesMut { pub v: Vec<u8>, pub reserve_bound: Ghost<int> }
 #[derive(Debug)]
 pub struct Bytes { pub v: Vec<u8> }
 impl Bytes {
@@ -45,7 +45,7 @@ impl BytesMut {
     // A-bytes-reserve: reserve does not change the contents; the precondition is a ghost budget chosen by the unit
     #[verifier::external_body]
     pub fn reserve(&mut self, n: usize)
-        requires n <= old(self).reserve_bound@
+        requires old(self).reserve_bound@ < 0 || n <= old(self).reserve_bound@
         ensures final(self)@ == old(self)@, final(self).reserve_bound == old(self).reserve_bound
     { unimplemented!() }
     // A-bytes-04: clear empties
